@@ -119,6 +119,7 @@ type vsdCall struct {
 type vsdObs struct {
 	Pool   int       `json:"pool"`
 	Dial   int       `json:"dial"`
+	Never  int       `json:"never"`
 	Stop   int       `json:"stop"`
 	Calls  []vsdCall `json:"calls"`
 	Reopen int       `json:"reopen"`
@@ -333,6 +334,7 @@ type vsdRun struct {
 	cfg    Config
 	chain  *vnChain
 	tip    int
+	known  int // height of the chain the CLIENT has (0: it never had a peer)
 	done   map[int]chan struct{} // per kind: caller returned
 	stopCh chan struct{}
 	info   map[string]string
@@ -470,7 +472,15 @@ func vsdIsData(m wire.Message) bool {
 	return false
 }
 
-func (r *vsdRun) hashAt(h int) chainhash.Hash { return r.chain.hash[h] }
+func (r *vsdRun) hashAt(h int) chainhash.Hash {
+	if h > r.known {
+		h = r.known
+	}
+	if h < 0 {
+		h = 0
+	}
+	return r.chain.hash[h]
+}
 
 func (r *vsdRun) addrOf(h int) (address.Address, []byte, error) {
 	script := r.chain.blk[h].Transactions[1].TxOut[0].PkScript
@@ -499,10 +509,11 @@ func (r *vsdRun) begin(a vsdAct) error {
 		})
 	case vsdKGetUtxo:
 		sh := 10
-		if sh > r.tip {
-			sh = r.tip
+		if sh > r.known {
+			sh = r.known
 		}
 		blk := r.chain.blk[sh]
+		last := len(blk.Transactions) - 1
 		if m == 1 {
 			// the start block is already cached: the scan's first fetch is
 			// the FILTER of the next height
@@ -513,10 +524,10 @@ func (r *vsdRun) begin(a vsdAct) error {
 				return err
 			}
 		}
-		txh := blk.Transactions[1].TxHash()
+		txh := blk.Transactions[last].TxHash()
 		in := InputWithScript{
 			OutPoint: wire.OutPoint{Hash: txh, Index: 0},
-			PkScript: blk.Transactions[1].TxOut[0].PkScript,
+			PkScript: blk.Transactions[last].TxOut[0].PkScript,
 		}
 		start := &headerfs.BlockStamp{Hash: r.chain.hash[sh], Height: int32(sh)}
 		r.guard(k, func() {
@@ -524,11 +535,11 @@ func (r *vsdRun) begin(a vsdAct) error {
 			r.ret(k, err, false)
 		})
 	case vsdKRescan:
-		sh := r.tip
+		sh := r.known
 		if m == 1 {
 			sh = 5
-			if sh > r.tip {
-				sh = r.tip
+			if sh > r.known {
+				sh = r.known
 			}
 		}
 		wh := sh + 1
@@ -605,7 +616,7 @@ func vsdRunOne(p vsdPathIn, scratch string) (out vsdPathOut, rerr error) {
 		}
 	}
 	pool := p.InitObs.Pool
-	r.obs = vsdObs{Pool: pool, Dial: p.InitObs.Dial, Stop: vsdSNot, Calls: []vsdCall{}, Reopen: vsdRNot}
+	r.obs = vsdObs{Pool: pool, Dial: p.InitObs.Dial, Never: p.InitObs.Never, Stop: vsdSNot, Calls: []vsdCall{}, Reopen: vsdRNot}
 	out.InitObs = r.obs
 
 	// split the scenario
@@ -658,6 +669,12 @@ func vsdRunOne(p vsdPathIn, scratch string) (out vsdPathOut, rerr error) {
 		nd.Hold(vsdIsCF)
 	}
 	nd.SetUp(true)
+	never := p.InitObs.Never == 1
+	if never {
+		// the only configured peer refuses every connection: the client is
+		// started and no peer ever completes a handshake
+		nd.SetUp(false)
+	}
 	r.dir = filepath.Join(scratch, fmt.Sprintf("sd-%d-%d", os.Getpid(), p.ID))
 	defer os.RemoveAll(r.dir)
 	persist := r.rng.Intn(2) == 0
@@ -676,8 +693,16 @@ func vsdRunOne(p vsdPathIn, scratch string) (out vsdPathOut, rerr error) {
 	r.svc, r.db, r.cfg = svc, db, cfg
 	r.chain = n.Honest()
 	r.tip = r.chain.tip()
+	r.known = r.tip
 	switch {
+	case never:
+		r.known = 0
+		time.Sleep(20 * time.Millisecond)
+		if svc.ConnectedCount() != 0 {
+			return out, fmt.Errorf("set-up: a peer connected in a never-connected scenario")
+		}
 	case stalled:
+		r.known = 0
 		if !vsdWaitFor(10*time.Second, func() bool { return svc.ConnectedCount() == 1 }) {
 			return out, fmt.Errorf("set-up: the silent peer did not connect")
 		}
@@ -701,6 +726,9 @@ func vsdRunOne(p vsdPathIn, scratch string) (out vsdPathOut, rerr error) {
 	// ----- peer pool at the moment of Stop
 	switch pool {
 	case vsdPEmpty:
+		if never {
+			break
+		}
 		nd.SetUp(false)
 		if !vsdWaitFor(10*time.Second, func() bool { return svc.ConnectedCount() == 0 }) {
 			return out, fmt.Errorf("set-up: peer did not go away")
@@ -797,7 +825,19 @@ func vsdRunOne(p vsdPathIn, scratch string) (out vsdPathOut, rerr error) {
 		at = vsdWhere(vsdDump())
 		at.Stop = ""
 	}
-	if reorgAtStop > 0 {
+	reorgInHook := syncM == 0 && pool == vsdPResp && stop.K == 5
+	if reorgInHook {
+		// mid-reorganisation, placed by the model's state "subscription
+		// manager stopped, block manager not yet": the re-org (2 or 3 deep,
+		// or nearly the whole chain) is announced while Stop is held after
+		// that step, so the block handler's rollback parks in its first
+		// disconnected notification, which nobody reads any more
+		if reorgAtStop < 2 {
+			reorgAtStop = 2 + r.rng.Intn(2)
+		}
+		r.info["reorg_at_stop"] = fmt.Sprintf("%d (in the hold after the subscription manager's stop)", reorgAtStop)
+	}
+	if reorgAtStop > 0 && !reorgInHook {
 		d := time.Duration(r.rng.Intn(60)) * time.Millisecond
 		r.info["reorg_delay_ms"] = fmt.Sprint(d.Milliseconds())
 		go func() {
@@ -810,9 +850,15 @@ func vsdRunOne(p vsdPathIn, scratch string) (out vsdPathOut, rerr error) {
 		// the rest of the client keeps running
 		step := vsdStopSteps[stop.K-1]
 		d := time.Duration(20+r.rng.Intn(70)) * time.Millisecond
+		if reorgInHook {
+			d = time.Duration(70+r.rng.Intn(40)) * time.Millisecond
+		}
 		r.info["pause"] = fmt.Sprintf("%s %dms", step, d.Milliseconds())
 		verifStopHook = func(s string) {
 			if s == step {
+				if reorgInHook {
+					n.Reorg(reorgAtStop, reorgAtStop+1)
+				}
 				time.Sleep(d)
 			}
 		}
